@@ -87,3 +87,22 @@ Theorem C02_prefixed_glob_walk_yields_exactly_its_matches :
     filter (keeps (split_components prefix_text) progs complete) (below (split_components prefix_text) (all_entries [] root)).
 Proof. exact prefixed_glob_walk_complete. Qed.
 Print Assumptions C02_prefixed_glob_walk_yields_exactly_its_matches.
+
+From WaxModel Require Import Spec Parse Glob.
+From WaxProofs Require Import BuiltWalk.
+
+(* in terms of the documented language: for a glob that builds outside the three known classes of C01, the walk yields exactly the
+   entries of the tree whose path below the directory given belongs to the documented language of the glob (and has at least as many
+   components as there are component programs) - C02's "exactly those whose path relative to the root the glob matches", with
+   "matches" being the language stated without regular expressions *)
+Theorem C02_walk_of_a_built_glob_yields_its_documented_language : forall orbit, (forall c d, In d (orbit c) -> d <> SEP) ->
+  forall e t r, build e = BuildOk t r -> has_reversed_range t = false -> trees_stable t = true -> rooted_first_tree t = false ->
+  forall complete : str -> bool, (forall w, complete w = true <-> sem orbit (encode t) w) ->
+  forall progs : list (name -> bool),
+    Forall2 (fun (pr : name -> bool) re0 => forall w, pr w = true <-> sem orbit re0 w) progs (component_programs t) ->
+  forall prefix, Forall valid_name prefix ->
+  forall root, names_valid root ->
+  forall q, In q (yields (walk 0 None [glob_layer prefix progs complete] root)) <->
+            In q (all_entries [] root) /\ Lang orbit t (join_path (prefix ++ q)) /\ (length progs <= length (prefix ++ q))%nat.
+Proof. exact built_glob_walk_yields_the_language. Qed.
+Print Assumptions C02_walk_of_a_built_glob_yields_its_documented_language.
